@@ -195,6 +195,11 @@ static int stub_read_at(sqfs_file_t *file, sqfs_u64 offset,
 #endif
 	} else {
 		sqfs_u8 v = verif_nd_u8("read_at.vk");
+#ifdef VERIF_REPLAY
+		/* natively the whole transfer is performed, so that the
+		   sanitizers see an undersized buffer */
+		(memset)(b, v ^ 0x55, size);
+#endif
 		if (g_k < size)
 			b[g_k] = v;
 		if (g_rd_n < ENV_LOG)
@@ -247,6 +252,17 @@ static sqfs_s32 stub_do_block(sqfs_compressor_t *cmp, const sqfs_u8 *in,
 	r = verif_nd_int("do_block.ret");
 	if (r > 0 && (sqfs_u32)r > outsize)
 		r = (sqfs_s32)(outsize <= 0x7FFFFFFF ? outsize : 0x7FFFFFFF);
+#ifdef VERIF_REPLAY
+	{
+		/* natively: consume the whole input, produce the whole output */
+		volatile sqfs_u8 sink = 0;
+		sqfs_u32 i;
+		for (i = 0; i < size; ++i)
+			sink ^= in[i];
+		if (r > 0)
+			(memset)(out, sink, (size_t)r);
+	}
+#endif
 	if (r > 0 && g_k < (size_t)r) {
 		sqfs_u8 *o = ENV_REBASE(out);
 		o[g_k] = g_blk_val;
